@@ -1,10 +1,69 @@
-(* C03/Property.v — (being extended) *)
-From Coq Require Import NArith List Bool.
-From IRV Require Import Base.Exn C03.Model C03.Canon C03.Inv C03.Iso.
+(* C03/Property.v — ONLY the property theorems of C03 ("IR -> proto -> IR preserves the model; serialization
+   has no side effects"), over the executable model of serde.serialize_* / deserialize_* in C03/Model.v.
+
+   Full statement and what is proved here:
+   (1) C03_iso (NOT PROVED; stated here in full, evaluated by vm_compute on every generated case through
+       Iso.iso_statement_b and compared with the implementation's round trip):
+         forall np h m, Inv h -> serializable_b h m = true ->
+           exists h1 q h2 m2, ser_model np h m = Ok (h1, q) /\ deser_model q = Ok (h2, m2) /\
+                              canon_s np h1 m = canon_s np h2 m2
+       (canon_s = canonical observation with first-visit labels: equality of canonical observations is
+       isomorphism of the rooted ordered object graphs — bijection on graphs/nodes/values preserving node
+       order, op ids, connectivity incl. optional inputs and captured outer-scope values, names, payloads,
+       initializers — modulo the order of uses(), leaf payload normalisation and trailing empty-named
+       outputs).  What IS proved towards it: the round-tripped state always satisfies the invariant
+       (C03_roundtrip_consistent_partial), for every h, without any hypothesis.
+   (2) serializing twice gives equal protos: C03_ser_twice_equal (FULL: the second serialization starts from
+       the state the first one left behind) and C03_ser_deterministic (ser is a function of the state).
+   (3) serialization changes nothing except aligning each initializer tensor's own name with the name of its
+       value: C03_ser_readonly (FULL). *)
+From Coq Require Import NArith List Bool Arith.
+From IRV Require Import Base.Exn C03.Model C03.Canon C03.Inv C03.Iso C03.Readonly C03.Twice C17.Top.
 Import ListNotations.
+Open Scope N_scope.
 
 (* Serialization is a function of the IR state: serializing twice from the same state gives equal protos. *)
 Theorem C03_ser_deterministic :
   forall np h m r1 r2, ser_model np h m = r1 -> ser_model np h m = r2 -> r1 = r2.
 Proof. intros; congruence. Qed.
 Print Assumptions C03_ser_deterministic.
+
+(* Serializing twice gives equal protos: the second to_proto, run on the state the first one left behind
+   (initializer tensor names aligned), succeeds and returns the same proto. *)
+Theorem C03_ser_twice_equal :
+  forall np h m h1 q, ser_model np h m = Ok (h1, q) -> exists h2, ser_model np h1 m = Ok (h2, q).
+Proof. exact ser_twice. Qed.
+Print Assumptions C03_ser_twice_equal.
+
+(* Serialization leaves every value, node and graph untouched; a tensor keeps its content, and its name
+   either stays or becomes the name of an initializer value that holds it. *)
+Theorem C03_ser_readonly :
+  forall np h m h' q, ser_model np h m = Ok (h', q) ->
+    hv h' = hv h /\ hn h' = hn h /\ hg h' = hg h /\ length (ht h') = length (ht h) /\
+    forall c t, gett h c = Some t ->
+      exists t', gett h' c = Some t' /\ tsame t t' /\
+                 (t_name t' = t_name t \/
+                  exists g z k v x, getg h g = Some z /\ In (k, v) (g_inits z) /\ getv h v = Some x /\
+                                    v_const x = Some c /\ t_name t' = v_name x).
+Proof. intros np h m h' q H. exact (ser_model_readonly np h m h' q H). Qed.
+Print Assumptions C03_ser_readonly.
+
+(* Whatever the state serialized, if the proto deserializes, the result satisfies the invariant. *)
+Theorem C03_roundtrip_consistent_partial :
+  forall np h m h1 q h2 m2, ser_model np h m = Ok (h1, q) -> deser_model q = Ok (h2, m2) -> Inv h2.
+Proof. intros np h m h1 q h2 m2 _ H. exact (deser_model_inv q h2 m2 H). Qed.
+Print Assumptions C03_roundtrip_consistent_partial.
+
+(* ---- non-vacuity of the hypotheses of C03_iso and of the readonly theorem: a state with unsorted node
+   order (n0 reads b, produced by the later n1), an optional (None) input, a trailing empty-named output,
+   an initializer, a subgraph capturing outer values a and c.  Names: a=1 b=2 c=3 d=4 w=5 x=6. *)
+Definition ex_sub : gproto :=
+  Gp 21 0 [mkVI 6 9 false] [mkVI 4 0 false] [] [] (NCons (Np 33 13 0 [6; 1; 3] [4] ANil) NNil).
+Definition ex_proto : mproto :=
+  mkMP 1 (Gp 20 0 [mkVI 1 9 false] [mkVI 3 7 false] [mkTP 5 41 8 false false []] [mkVI 3 7 false]
+             (NCons (Np 31 10 0 [2; 0; 5] [3; 0] ANil)
+             (NCons (Np 32 11 0 [1] [2] (ACons (AGraph 12 ex_sub) ANil)) NNil))) [].
+Example C03_iso_hypotheses_nonvacuous :
+  exists h m, deser_model ex_proto = Ok (h, m) /\ inv_b h = true /\ serializable_b h m = true /\
+              iso_b [] h m = true /\ iso_statement_b [] h m = true.
+Proof. vm_compute. eexists _, _. repeat split. Qed.
